@@ -3,6 +3,7 @@ import glob
 import json
 import os
 import shutil
+import subprocess
 import sys
 
 from vf import core
@@ -107,9 +108,28 @@ def _fuzz(tier, seed, res, sk):
                 # parsec_fatal: diagnostic printed, process ended with status -6: the documented way PaRSEC stops on an unusable map
                 res.coverage["fuzz_inputs_rejected_by_parsec_fatal"] = res.coverage.get("fuzz_inputs_rejected_by_parsec_fatal", 0) + 1
                 continue
-            key = [l for l in tail.splitlines() if "Assertion" in l or "ERROR: AddressSanitizer" in l or "runtime error" in l]
+            try:
+                full = open(c["log"], errors="replace").read()
+            except OSError:
+                full = tail
+            key = [l for l in full.splitlines() if "Assertion" in l or "ERROR: AddressSanitizer" in l or "runtime error" in l or "ERROR: libFuzzer" in l]
             arts = glob.glob(os.path.join(jobs[c["worker"]]["adir"], "crash-*"))
             data = open(arts[0], "rb").read() if arts else b""
+            # The saved input is the reproducible unit: a death that does not reproduce from it alone (3 tries) comes from state
+            # accumulated over thousands of in-process iterations (leaked cpusets, allocator limits), not from this input.
+            reproduced = False
+            if arts:
+                env = dict(os.environ); env.update(core.MPI_ENV); env.update(core.SAN_RUN_ENV); env.update(sk); env["PARSEC_MCA_debug_verbose"] = "0"
+                for _ in range(3):
+                    p = subprocess.run([fz, "-rss_limit_mb=0", arts[0]], env=env, stdout=subprocess.PIPE, stderr=subprocess.STDOUT, text=True, errors="replace")
+                    if p.returncode not in (0, 250):
+                        reproduced = True
+                        key = [l for l in p.stdout.splitlines() if "Assertion" in l or "ERROR: AddressSanitizer" in l or "runtime error" in l] or key
+                        break
+            if not reproduced:
+                res.coverage["fuzz_deaths_not_reproduced_from_saved_input"] = res.coverage.get("fuzz_deaths_not_reproduced_from_saved_input", 0) + 1
+                res.coverage.setdefault("fuzz_unreproduced_notes", []).append(("rc=%s " % c["rc"]) + (key[0][:200] if key else "no diagnostic line in the log"))
+                continue
             res.violations.append(core.Violation("parser fuzzing: process died (rc=%s): %s" % (c["rc"], (key[0] if key else tail[-500:])[:400]),
                                                  replay_text="# libFuzzer input (byte0 = cores, byte1 = kind, rest = text): %r\n" % data, ext="fuzz.txt"))
         if res.violations:
